@@ -189,15 +189,19 @@ def mEnd (s : MState) : Option MState :=
 def matchOne (rank : String) (s : MState) (e : String × List String) : Option MState :=
   if e.2.contains rank then startAll { s with rankMatches := dset s.rankMatches e.1 rank } e.1 else some s
 
+/-- the bookkeeping of `registerRank` for a new rank, before its traces are started -/
+def regState (s : MState) (rank : String) (lo : Dict Nat) (it : List Int) (lp : List String) (pt : List Int) : MState :=
+  { s with fiberLabel := dset s.fiberLabel rank 0, iteration := some (it ++ [0]),
+           lineOrder := some (dset lo rank it.length), loopOrder := some (lp ++ [rank]),
+           point := some (pt ++ [0]) }
+
 def mRegister (rank : String) (s : MState) : Option MState :=
   if s.collecting then
     match s.lineOrder, s.iteration, s.loopOrder, s.point with
     | some lo, some it, some lp, some pt =>
       if dhas lo rank then some s
       else
-        match startAll { s with fiberLabel := dset s.fiberLabel rank 0, iteration := some (it ++ [0]),
-                                lineOrder := some (dset lo rank it.length), loopOrder := some (lp ++ [rank]),
-                                point := some (pt ++ [0]) } rank with
+        match startAll (regState s rank lo it lp pt) rank with
         | none => none
         | some s2 => s2.allRankMatches.foldlM (matchOne rank) s2
     | _, _, _, _ => none
@@ -208,16 +212,19 @@ def useRow (itl pt : List Int) (i : Nat) (coord pos : Int) : Row :=
   .dat (itl.take (i + 1) ++ (pt.take i ++ [coord]) ++ [pos])
 
 /-- append a row to the trace's lists; at the threshold, write the file -/
+def withRow (tr : TraceSt) (f : List Row) (data : Row) : TraceSt :=
+  { tr with file := some (f ++ [data]), mem := tr.mem.map (· ++ [data]) }
+
+def setTrace (s : MState) (k : TKey) (tr : TraceSt) : MState := { s with traces := dset s.traces k tr }
+
 def pushRow (s : MState) (rank ty : String) (tr : TraceSt) (data : Row) : Option MState :=
   match tr.file with
   | some f =>
     if (f ++ [data]).length = s.numCachedUses then
-      writeTrace { s with traces := dset s.traces (rank, ty)
-                            { tr with file := some (f ++ [data]), mem := tr.mem.map (· ++ [data]) } } rank ty
+      writeTrace (setTrace s (rank, ty) (withRow tr f data)) rank ty
     else
-      some { s with traces := dset s.traces (rank, ty)
-                      { tr with file := some (f ++ [data]), mem := tr.mem.map (· ++ [data]) } }
-  | none => some { s with traces := dset s.traces (rank, ty) { tr with mem := tr.mem.map (· ++ [data]) } }
+      some (setTrace s (rank, ty) (withRow tr f data))
+  | none => some (setTrace s (rank, ty) { tr with mem := tr.mem.map (· ++ [data]) })
 
 /-- the tail of `addUse`, after the point has been updated -/
 def recordUse (s : MState) (rank ty : String) (pt : List Int) (i : Nat) (coord pos : Int)
@@ -232,11 +239,13 @@ def recordUse (s : MState) (rank ty : String) (pt : List Int) (i : Nat) (coord p
 def newPoint (lo : Dict Nat) (pt : List Int) (rank : String) (i : Nat) (coord : Int) : List Int :=
   if dhas lo rank then pt.set i coord else pt
 
+def setPoint (s : MState) (pt : List Int) : MState := { s with point := some pt }
+
 def mAddUse (rank : String) (coord pos : Int) (ty : String) (iterNum : Option (List Int)) (s : MState) : Option MState :=
   if s.collecting && known s rank then
     match s.lineOrder, s.point, lineIdx s rank with
     | some lo, some pt, some i =>
-      recordUse { s with point := some (newPoint lo pt rank i coord) } rank ty (newPoint lo pt rank i coord) i coord pos iterNum
+      recordUse (setPoint s (newPoint lo pt rank i coord)) rank ty (newPoint lo pt rank i coord) i coord pos iterNum
     | _, _, _ => none
   else none
 
